@@ -17,6 +17,8 @@ CHECKS = {
             "Responses with 1-6 Via entries in all layouts are injected at the listeners of the simulated proxy; at exact quiescence the emissions attributable to each must be none or exactly one to the address/transport the reference function derives from the sent bytes, with the remaining Via entries intact."),
     "C03": ("exploration", "3 C03", "seeded simulation over the decision table of configurations x request shapes, reference precedence function, exactly-one/none at quiescence",
             "Configurations and requests are drawn to cover Route / static route / service / drop classes; the set of emissions attributable to each arrival, observed at the simulated socket boundary at exact quiescence, must be exactly the one destination the reference precedence function gives (or empty)."),
+    "C05": ("exploration", "3 C05", "seeded schedules of racing simulated goroutines on the real round-robin set; recorded invoke/return history checked with porcupine against a sequential rotation specification; plus rotation windows through the proxy under DNS-driven membership",
+            "One simulated goroutine dispatches through a real RoundRobinBackend while one or two others add and remove real UDP backends on the simulated network (sequences up to 400 operations over 5 addresses, short ones dominate); which lock acquisition interleaves with which is decided by the seeded scheduler (random, run-to-block, PCT); the history stamped with a global sequence number must be linearizable w.r.t. the specification written from the statement (member at that moment, strict rotation between changes, 'none' only when empty). Through the proxy: after every resolution step any k consecutive dispatches over k backends reach each exactly once."),
     "C06": ("exploration", "3 C06", "seeded simulation with learning histories; Via/Record-Route model with causal 'learned' relation; branch freshness per world",
             "Relay world with learning histories across 1-3 listeners; each relayed request's Via and Record-Route lists are compared with the reference insertion policy (inserted iff backend path or causally learned next hop; don't-care when the teaching is concurrent or ambiguous)."),
     "C07": ("exploration", "3 C07", "seeded simulation of YAML-started listeners with arbitrary simulated source addresses; stamp and return-path oracle",
@@ -39,6 +41,8 @@ CHECKS = {
             "World B replays world A's plan with header names independently respelled (canonical, compact, upper, lower, random case) and Via/Route/Record-Route lists re-laid-out; relay decision, destination, decoded routing stacks, remaining headers, body and the pinning decisions of scripted dialogs must be the same."),
     "C18": ("exploration", "3 C18", "seeded simulation with map iteration order drawn from the seed (rewrite rule R5); in-package repeated lookups on the table built by the real configuration code plus end-to-end routed requests",
             "Route tables of 1-4 (thorough: up to 9) entries over the pattern universe; each host of the universe is looked up 50 times by a simulated goroutine while the kernel permutes every map iteration; answers must belong to the class's admissible set and be identical across repetitions; requests routed by To host must reach the same destination every time."),
+    "C19": ("exploration", "3 C19", "seeded DNS fault sequences (answers as a function of simulated time, failure runs of length 1-5) driving the real resolver's 2 s poll on the simulated clock; membership model; dispatch, attribution and socket-accounting probes at exact quiescence after every poll",
+            "Backends given by one or two host names (udp:// and tcp://); after the start-up resolution and after every poll the world runs to quiescence and then 2|S|+1 unpinned requests must reach exactly the model's addresses (dropped when empty), a 2xx injected from a member's / a removed address must / must not bind a dialog to it, and the proxy must hold exactly one backend socket per member (removed backends closed). The model: set after each success, unchanged by up to three consecutive failures, emptied by the fourth."),
     "C20": ("fault_enumeration", "3 C20", "complete enumeration of the connection-fault table on simulated TCP (write failing after k bytes, peer close, refused dial, accept-then-reset) against real FailOverClientTransport / TCPClientTransport / TCPBackend objects, plus the same faults end to end",
             "Every cell of {cached inbound connection: absent, healthy, failing on write, closed by the peer} x {reconnectable path: absent, fresh, stale failing once, refusing, resetting once, resetting always} and of the TCPBackend table is executed in every world for 1-3 messages with seeded sizes and failure offsets; per-connection byte logs and Send's result are judged: success iff the complete message was accepted exactly once, fallback to a fresh connection when one is available, error (and return) when none is, no write on a failed connection."),
 }
